@@ -364,6 +364,11 @@ func genArgFault(r *Rng, d *DeclSpec, p *Plan, twinCalls []Call) (f ArgFault, ok
 		// parsing, so a required-option error may come first
 		if need && d.Options&optPassAfterNonOption == 0 {
 			f.Expect = "unknown command"
+			if f.Text == "" {
+				// the empty word names no command: "unknown command" and "no command given"
+				// are both documented types for that
+				f.Expect = "unknown command|command required"
+			}
 		}
 		return f, true
 	case "truncate":
